@@ -149,7 +149,7 @@ func vfC15RunBw(c *vt.Ctx, s vfC15BwScenario) {
 	c.Label("result:accepted")
 }
 
-func TestVerifC15Bandwidth(t *testing.T) { vt.Run(t, vfC15GenBw, vfC15RunBw) }
+func TestVerifC15Bandwidth(t *testing.T) { vt.Run(t, vfC15GenBw, g.NoPanic(vfC15RunBw)) }
 
 // Second sentence of the statement: well-formed values are accepted with or without a
 // unit, aliases of a unit agree, one unit step scales by 1024 (up to the integer
@@ -231,7 +231,7 @@ func vfC15RunScale(c *vt.Ctx, s vfC15ScaleScenario) {
 	}
 }
 
-func TestVerifC15BandwidthScale(t *testing.T) { vt.Run(t, vfC15GenScale, vfC15RunScale) }
+func TestVerifC15BandwidthScale(t *testing.T) { vt.Run(t, vfC15GenScale, g.NoPanic(vfC15RunScale)) }
 
 // Deterministic witness of F-2, printed only while the finding is listed as open.
 func TestVerifC15KnownWitnessBandwidthNoUnit(t *testing.T) {
@@ -454,7 +454,7 @@ func vfC15RunPod(c *vt.Ctx, s vfC15PodScenario) {
 	_ = k.clean()
 }
 
-func TestVerifC15ConvertPod(t *testing.T) { vt.Run(t, vfC15GenPod, vfC15RunPod) }
+func TestVerifC15ConvertPod(t *testing.T) { vt.Run(t, vfC15GenPod, g.NoPanic(vfC15RunPod)) }
 
 // ---------------------------------------------------------------------------------
 // stored pod records (bolt value bytes) -> deserialize -> consumers
@@ -600,7 +600,7 @@ func vfC15RunStore(c *vt.Ctx, s vfC15StoreScenario) {
 	_ = k.clean()
 }
 
-func TestVerifC15PodStore(t *testing.T) { vt.Run(t, vfC15GenStore, vfC15RunStore) }
+func TestVerifC15PodStore(t *testing.T) { vt.Run(t, vfC15GenStore, g.NoPanic(vfC15RunStore)) }
 
 // Deterministic witness, printed only while the finding is listed as open.
 func TestVerifC15KnownWitnessPodStoreNilPod(t *testing.T) {
